@@ -35,16 +35,35 @@ def eval_node(node, env):
 
 
 def pad_expr_of_make_header():
-    """the argument of bytearray(...) in RawVoltageBackend._make_header as a function of header_lines"""
+    """bytes of DIRECTIO padding that RawVoltageBackend._make_header writes, as a function of header_lines:
+    the body of its `if directio:` statement is executed with header_lines symbolic, `f` a recorder and
+    `bytearray` a size-recording stand-in"""
     nodes, _ = find_nodes(B.RawVoltageBackend._make_header,
-                          lambda n: isinstance(n, ast.Call) and isinstance(n.func, ast.Name) and n.func.id == 'bytearray' and len(n.args) == 1)
+                          lambda n: isinstance(n, ast.If) and isinstance(n.test, ast.Name) and n.test.id == 'directio'
+                          and any(isinstance(c, ast.Call) and isinstance(c.func, ast.Name) and c.func.id == 'bytearray' for c in ast.walk(n)))
     if len(nodes) != 1:
-        raise core.HarnessError(f"_make_header: expected one bytearray(...) call, found {len(nodes)} (source refactored: slice not found)")
-    arg = nodes[0].args[0]
-    names = {n.id for n in ast.walk(arg) if isinstance(n, ast.Name)}
-    if names - {'header_lines'}:
-        raise core.HarnessError(f"_make_header padding expression uses unexpected names {names}")
-    return lambda h: eval_node(arg, {'header_lines': h, '__builtins__': {}})
+        raise core.HarnessError(f"_make_header: expected one `if directio:` block writing a bytearray, found {len(nodes)} (source refactored: slice not found)")
+    body = ast.Module(body=nodes[0].body, type_ignores=[])
+    code = compile(body, '<slice:_make_header padding>', 'exec')
+
+    class Pad:
+        def __init__(self, n):
+            self.n = n
+
+    class Rec:
+        def __init__(self):
+            self.total = 0
+
+        def write(self, b):
+            self.total = self.total + (b.n if isinstance(b, Pad) else len(b))
+
+    def pad(h):
+        rec = Rec()
+        env = {'header_lines': h, 'f': rec, 'bytearray': Pad, 'int': shadow.sint, 'np': npx.NPProxy(), 'xp': npx.NPProxy(),
+               'max': core.smax, 'min': core.smin, 'self': None}
+        exec(code, env)
+        return rec.total
+    return pad
 
 
 class LenStub(dict):
